@@ -63,7 +63,7 @@ CLAIMED = {
     "C01": dict(
         text='Lean 4 theorems on the value-level walk model (every container/wrapper/attribute, every runtime state, every key source, arbitrary (de)serializer): failed_access_changes_nothing; read_never_modifies; at_most_one_leaf_changes (frame: after any access the tree is identical except for the value of at most one leaf); read_after_write (after a write that stored v, every successful read through the same key or any step-wise equivalent key source returns v, also after the documented exceptions); chain_equivalent. Every run executes random read/write histories on every instance and compares whole-tree snapshots with the Lean model and an independent Python reference interpreter; the hypotheses (Tree.WF) are evaluated on every corpus instance.'
              ' histories: after any sequence of by-key accesses the tree is the initial tree except for leaf values (structure, attributes, runtime state and type unchanged); a history of reads leaves it identical.'
-             " source_array_access_is_model / source_tuple_access_is_model / source_option_access_is_model / source_result_bound_access_is_model: the value-level by-key functions of [T; N], the n-tuples, Range*, Option, Result and Bound as TRANSLATED from impls.rs on every run do not panic and equal the model's walk at the corresponding node (the designated child, and only it, is read or replaced).",
+             " source_array_access_is_model / source_tuple_access_is_model / source_option_access_is_model / source_result_bound_access_is_model: the value-level by-key functions of [T; N], the n-tuples, Range*, Option, Result and Bound as TRANSLATED from impls.rs on every run do not panic and equal the model's walk at the corresponding node (the designated child, and only it, is read or replaced). source_derive_access_is_model: the four by-key functions GENERATED by the derive (macro crate's own source run on every corpus type) for every attribute-free struct / tuple struct, translated, are Tree.walk at the node (only the designated field is read or replaced); every generated arm of every derived type is compared with the definition (derive_reading_check).",
         note='Accessors/validators must not alias other fields (generated ones own their storage).',
         tech='Lean 4 proof by mutual structural induction over the nested tree + snapshot-based correspondence/oracle'),
     "C02": dict(
